@@ -116,11 +116,12 @@ impl<'a> Ctx<'a> {
 			let stride = if b.len() > 400 { 1 + b.len() / 200 } else { 1 };
 			let mut off = rng.below(stride as u64) as usize;
 			while off < b.len() {
-				for k in 0..3 {
+				for k in 0..4 {
 					let mut bm = b.clone();
 					bm[off] = match k {
 						0 => bm[off] ^ (1 << rng.below(8)),
 						1 => bm[off].wrapping_add(1),
+						2 => bm[off].wrapping_sub(1),
 						_ => rng.below(256) as u8,
 					};
 					if bm[off] == b[off] {
@@ -135,6 +136,16 @@ impl<'a> Ctx<'a> {
 						Ok(Ok(m2)) => {
 							self.rep.count("mutations_that_decoded");
 							let b2 = m2.encode();
+							// W7: the signed gossip messages keep every byte they were decoded from (unknown address types and
+							// trailing data are stored, because the signature covers them): whatever decodes re-encodes to exactly
+							// the input - a decoder that reads past a declared inner length, or fills something in, does not
+							if matches!(name, "node_announcement" | "channel_announcement" | "channel_update") {
+								self.rep.count("w7_gossip_exact_reencodings_checked");
+								if b2 != bm {
+									self.violate(name, "W7-exact-reencoding", "a mutated gossip message decoded to a message that does not re-encode to the bytes it was read from", format!("offset {} of {}: byte {} -> {}", off, b.len(), b[off], bm[off]), &bm);
+									return;
+								}
+							}
 							match vcore::guarded(|| dec::<T>(&b2)) {
 								Ok(Ok(m3)) if m3 == m2 => {},
 								Ok(Ok(_)) => {
@@ -157,6 +168,21 @@ impl<'a> Ctx<'a> {
 				off += stride;
 			}
 			self.mutate_budget -= 1;
+		}
+		// W8: data beyond what a message of this type expects is ignored (BOLT 1): for the messages that neither end in
+		// a TLV stream nor keep excess data, a valid encoding followed by extra bytes decodes to an equal message
+		if matches!(name, "error" | "warning" | "ping" | "pong" | "onion_message") {
+			for extra in [1usize, 2, 19] {
+				let mut ext = b.clone();
+				ext.extend(rng.vec(extra));
+				self.rep.count("w8_trailing_data_checks");
+				match vcore::guarded(|| dec::<T>(&ext)) {
+					Ok(Ok(m2)) if m2 == *m => {},
+					Ok(Ok(_)) => self.violate(name, "W8-trailing-data", "data after the end of a message changed the decoded message", format!("{} extra bytes", extra), &ext),
+					Ok(Err(e)) => self.violate(name, "W8-trailing-data", &format!("data after the end of a message was not ignored: {:?}", e), format!("{} extra bytes", extra), &ext),
+					Err(p) => self.violate(name, "W8-trailing-data", "panic on data after the end of a message", p, &ext),
+				}
+			}
 		}
 		// W5: TLV extension rules
 		if tlv_tail {
